@@ -428,7 +428,98 @@ def root({', '.join(args)}):
     return GenProgram(HEADER + body, "root", [], [], {"template": "quasi", "prefer_ops": ["simplify"]})
 
 
-ALL = [t_temp2d, t_temp2d_call, t_two_loops, t_reduce_const, t_sliding, t_two_temps, t_split_range, t_writes, t_matmul, t_conv1d, t_blur, t_name_clash, t_config_loop, t_mod_trip, t_quasi]
+def t_config_arg(rng):
+    """control-typed configuration fields (bool / index) passed directly as call arguments -- a read
+    of the field that no expression of the caller shows -- between writes of the same field"""
+    v1 = _c(rng, [0, 1, 2])
+    v2 = _c(rng, [0, 1, 2])
+    b1 = _c(rng, ["flag", "True", "False"])
+    b2 = _c(rng, ["flag", "True", "False"])
+    op = _c(rng, ["=", "+="])
+    calls = [
+        "sub(n, x[0:n], Cfg.b, Cfg.k)",
+        "sub(n, y[0:n], Cfg.b, 0)",
+        f"sub(n, x[0:n], {_c(rng, ['True', 'flag'])}, Cfg.k)",
+        "sub(n, y[0:n], Cfg.b, Cfg.k)",
+    ]
+    rng.shuffle(calls)
+    mid = _c(rng, [f"Cfg.b = {b2}", f"Cfg.k = {v2}", f"Cfg.b = {b2}\n    Cfg.k = {v2}"])
+    tail = _c(rng, ["", f"    Cfg.k = {v1}\n", f"    Cfg.b = {b1}\n", "    if Cfg.b == True:\n        y[0] = 2.0\n"])
+    body = f"""@config
+class Cfg:
+    k: index
+    a: f32
+    b: bool
+
+@proc
+def sub(n: size, dst: [f32][n], go: bool, off: index):
+    for i in seq(0, n):
+        if go:
+            if i >= off:
+                dst[i] {op} 1.0
+
+@proc
+def root(n: size, x: f32[n], y: f32[n], flag: bool):
+    assert n >= 3
+    Cfg.b = {b1}
+    Cfg.k = {v1}
+    {calls[0]}
+    {mid}
+    {calls[1]}
+{tail}    {calls[2]}
+"""
+    return GenProgram(HEADER + body, "root", ["sub"], ["Cfg"], {"template": "config_arg", "prefer_ops": ["delete_config", "delete_config", "write_config", "bind_config", "reorder_stmts", "inline", "fission"]})
+
+
+def t_config_first_iter(rng):
+    """a loop whose only change of a configuration field happens in its first (only) iteration,
+    or in every iteration, followed by a read of the field (guard, right-hand side, call argument);
+    real and bool fields (the front end cannot handle index fields written in loops)"""
+    lo = _c(rng, [0, 0, 1, 2])
+    kind = _c(rng, ["one_trip", "one_trip", "one_trip", "every"])
+    hi = str(lo + 1) if kind == "one_trip" else "n"
+    other = _c(rng, ["x[i] = x[i] * 2.0", "x[i] += 1.0", "pass"])
+    if rng.random() < 0.5:
+        pre = _c(rng, ["Cfg.a = sc", "Cfg.a = sc", "pass"])
+        inner = f"Cfg.a = {_c(rng, ['3.0', '0.5', 'sc2'])}"
+        reader = _c(rng, ["y[0] = Cfg.a", "subr(n, y[0:n], Cfg.a)", "for j in seq(0, n):\n        y[j] = Cfg.a * 2.0"])
+        post = _c(rng, ["pass", "pass", "Cfg.a = sc"])
+    else:
+        pre = _c(rng, ["Cfg.b = flag", "Cfg.b = flag", "pass"])
+        inner = f"Cfg.b = {_c(rng, ['True', 'False', 'flag2'])}"
+        reader = _c(rng, ["if Cfg.b == True:\n        y[0] = 2.0", "subb(n, y[0:n], Cfg.b)", "for j in seq(0, n):\n        if Cfg.b == True:\n            y[j] = 3.0"])
+        post = _c(rng, ["pass", "pass", "Cfg.b = flag"])
+    body = f"""@config
+class Cfg:
+    k: index
+    a: f32
+    b: bool
+
+@proc
+def subr(n: size, dst: [f32][n], s: f32):
+    for i in seq(0, n):
+        dst[i] = s
+
+@proc
+def subb(n: size, dst: [f32][n], go: bool):
+    for i in seq(0, n):
+        if go:
+            dst[i] = 1.0
+
+@proc
+def root(n: size, x: f32[n], y: f32[n], sc: f32, sc2: f32, flag: bool, flag2: bool):
+    assert n >= {lo + 2}
+    {pre}
+    for i in seq({lo}, {hi}):
+        {inner}
+        {other}
+    {reader}
+    {post}
+"""
+    return GenProgram(HEADER + body, "root", ["subr", "subb"], ["Cfg"], {"template": "config_first_iter", "prefer_ops": ["delete_config", "delete_config", "write_config", "bind_config", "reorder_stmts", "fission", "remove_loop", "unroll_loop"]})
+
+
+ALL = [t_temp2d, t_temp2d_call, t_two_loops, t_reduce_const, t_sliding, t_two_temps, t_split_range, t_writes, t_matmul, t_conv1d, t_blur, t_name_clash, t_config_loop, t_mod_trip, t_quasi, t_config_arg, t_config_first_iter]
 
 
 def any_template(rng):
@@ -437,3 +528,7 @@ def any_template(rng):
 
 def quasi_template(rng):
     return (t_quasi if rng.random() < 0.8 else t_mod_trip)(rng)
+
+
+def config_template(rng):
+    return rng.choice([t_config_flow, t_config_loop, t_config_arg, t_config_arg, t_config_first_iter, t_config_first_iter])(rng)
